@@ -99,3 +99,6 @@ func (p *Points) HitCount(name string) int {
 	defer p.mu.Unlock()
 	return p.Hits[name]
 }
+
+// Hit lets harness code reach a (harness-side) scheduling point.
+func (p *Points) Hit(name string) { p.hit(name) }
